@@ -1,6 +1,6 @@
 (* Model of crates/edp_client/src/control.rs: ControlMessage::from_term / to_term / into_term, generic over the
    table that tools/gen_consts.py extracts from the three match expressions (Gen/ControlTable.v). Definitions only. *)
-From EDP Require Import Base.Bytes Term.Term.
+From EDP Require Import Base.Bytes Term.Term Term.Access.
 
 Definition centry := (N * (N * N * N) * (list N * list N * N) * (N * list N) * (N * list N))%type.
 Definition ce_variant (e : centry) : N := let '(v, _, _, _, _) := e in v.
@@ -62,7 +62,8 @@ Definition build_fields (e : centry) (els : list term) : option (list (N * term)
        | [] => None
        end.
 
-Definition from_term (tbl : list centry) (t : term) : cres :=
+(* the body of from_term once the tag element is known to be the plain integer `TInt z` *)
+Definition from_term_c (tbl : list centry) (t : term) : cres :=
   match t with
   | TTuple els =>
       match els with
@@ -78,6 +79,17 @@ Definition from_term (tbl : list centry) (t : term) : cres :=
       | _ :: _ => CErr ETypeNotInteger
       end
   | _ => CErr ENotTuple
+  end.
+
+(* from_term: the tag is read with as_integer, so a big-integer encoding of 0..255 is the same tag *)
+Definition from_term (tbl : list centry) (t : term) : cres :=
+  match t with
+  | TTuple (x :: r) =>
+      match as_integer x with
+      | Some z => from_term_c tbl (TTuple (TInt z :: r))
+      | None => CErr ETypeNotInteger
+      end
+  | _ => from_term_c tbl t
   end.
 
 Definition ser (tbl : list centry) (tag_of : centry -> N) (roles_of : centry -> list N) (m : cmsg) : term :=
